@@ -8,7 +8,7 @@ PROP = "C06"
 HARNESS = "c06_sasl"
 RULE = ("(a) responses: the real QXmppSaslClient objects run with a pinned client nonce over mechanism in {SCRAM-SHA-1/-256/-512/SHA3-512} x 7 "
         "user names (ASCII, ',' and '=', non-ASCII, space, 64 chars, quote/backslash) x 6 passwords (ASCII, metacharacters, Cyrillic, astral, 1 "
-        "and 200 chars) x 3 salts (1 byte, 16 bytes with 0x00/0xff, 64 bytes) x iterations {1, 2, 4096} x 3 server nonce extensions; "
+        "and 200 chars) x 3 salts (1 byte, 16 bytes with 0x00/0xff, 64 bytes) x iterations {1, 2, 4096} x 5 server nonce extensions (incl. the character sequences '=3D' / '=2C', which are escapes only in user names); "
         "DIGEST-MD5 over the same credentials x 3 realms (absent, plain, with quote/backslash) x 2 nonces; PLAIN; HT-SHA-256/512/SHA3-512 "
         "over 3 tokens; every emitted message is recomputed by an independent Python oracle (hashlib/hmac, written from RFC 5802/7677, "
         "2831, 4616, XEP-0484; DIGEST-MD5 compared field by field through a tolerant RFC 2831 reader). (b) refusals: every sequence of "
